@@ -14,6 +14,11 @@ import time
 import traceback
 
 HERE = os.path.dirname(os.path.abspath(__file__))
+if os.environ.get('PYTHONHASHSEED') is None:
+  # one fixed hash seed for the checker itself: the order in which hypotheses reach the solvers (and with it which
+  # of the borderline obligations they decide) is then the same on every run
+  os.environ['PYTHONHASHSEED'] = '0'
+  os.execv(sys.executable, [sys.executable] + sys.argv)
 sys.path.insert(0, HERE)
 os.environ.setdefault('VERIF_REPO', '/repo')
 
